@@ -309,13 +309,9 @@ async fn body(c: &Case) -> L2 {
           continue;
         }
         let pi = alive[*i as usize % alive.len()];
-        // never detach the peer whose message is being read: what then happens to the rest of
-        // *its* message is a different question from the one this property asks
+        // the peer whose message is half read may be the one that goes away: messages are queued
+        // whole, so the frames already owed to the application still have to come out
         if in_partial(&seen) {
-          let cur = seen.iter().rev().find_map(|s| parse_acc(&s.body).ok()).map(|a| a.sender);
-          if cur == Some(peers[pi].id) {
-            continue;
-          }
           detach_while_partial = true;
         }
         // make sure everything this peer sent has reached the receiver before it goes away
@@ -387,12 +383,10 @@ async fn body(c: &Case) -> L2 {
     let cnt = first.frame_cnt as usize;
     for k in 0..cnt {
       if i + k >= seen.len() {
-        // allowed only if the sender was detached before its message could be read completely
+        // a message whose first frame was handed out has to be finished, whether or not its
+        // sender is still connected (it was queued whole)
         let still_connected = peers.iter().any(|p| p.id == first.sender && p.alive);
-        if still_connected {
-          return v("truncated_message_delivered", format!("message ({}, {}): only {} of {} frames were ever delivered although its sender stayed connected", first.sender, first.msg_seq, k, cnt));
-        }
-        break;
+        return v("truncated_message_delivered", format!("message ({}, {}): only {} of {} frames were ever delivered (sender still connected: {})", first.sender, first.msg_seq, k, cnt, still_connected));
       }
       let a = match parse_acc(&seen[i + k].body) {
         Ok(a) => a,
@@ -527,10 +521,10 @@ async fn big_body(c: &BigCase) -> L2 {
 }
 
 pub fn run(run: &mut Run) {
-  run.rule = "L1: FrameBatch operation sequences (push/pop/insert/remove/extend/clone/Vec round trip, up to 255 frames) against a Vec model. L2: receiver in {PULL, SUB, DEALER, ROUTER} over tcp/ipc/inproc with 1..3 sending peers and a script of 4..29 steps from {peer i sends a message of 1..5 (or 17) frames of sizes {0,1..39,255,256,..4096} (15% with MORE pre-set on every frame), read k frames with recv(), recv_multipart(), detach a peer other than the one whose message is being read, attach a new peer}; oversize: send_multipart with 254..300 frames from PUSH/PUB/DEALER/ROUTER. Non-trivial = a message of at least 3 frames and (mixed read styles or a detach while a message is partially read). Distinct = hash of the case".into();
+  run.rule = "L1: FrameBatch operation sequences (push/pop/insert/remove/extend/clone/Vec round trip, up to 255 frames) against a Vec model. L2: receiver in {PULL, SUB, DEALER, ROUTER} over tcp/ipc/inproc with 1..3 sending peers and a script of 4..29 steps from {peer i sends a message of 1..5 (or 17) frames of sizes {0,1..39,255,256,..4096} (15% with MORE pre-set on every frame), read k frames with recv(), recv_multipart(), detach a peer (also the one whose message is half read), attach a new peer}; oversize: send_multipart with 254..300 frames from PUSH/PUB/DEALER/ROUTER. Non-trivial = a message of at least 3 frames and (mixed read styles or a detach while a message is partially read). Distinct = hash of the case".into();
   run.assumptions = vec![
     "application frames never carry the COMMAND flag; ROUTER's first frame is the identity".into(),
-    "a detach only ever hits a peer other than the one whose message is currently half read; completeness is only required for peers that stayed connected".into(),
+    "whole messages of a peer that detached may be missing; a message whose first frame was delivered must always be completed".into(),
     "REQ/REP multi-frame replies are exercised in C10/C11 (REQ.recv() keeping only the first frame is recorded there)".into(),
   ];
   let (n1, n2, n3) = match run.tier {
